@@ -28,6 +28,8 @@ type Site struct {
 	// Kind: "regex" (the value is a regular expression), "plain" (a plain string value), "" (identifier, template,
 	// structured value): decides which context templates (quote.go) are applied around the hostile string.
 	Kind string
+	// Endpoint (options.go) and the name of the option set of this site ("" = default shape).
+	Endpoint, Opt string
 	// Ctx is the name of the context template of this site ("" = none); Base the ID of the site without context,
 	// BaseQuote its quoting form without the template.
 	Ctx, Base string
@@ -53,6 +55,7 @@ func init() {
 	tempoSites()
 	promSites()
 	profSites()
+	expandOptions()
 	expandContexts()
 	seen := map[string]bool{}
 	for i := range sites {
@@ -68,6 +71,10 @@ func init() {
 		}
 		// identifier positions: the front ends refuse almost every hostile string; quick tier = reduced set
 		if s.Quote.Name == "whole" || s.Quote.Name == "suffix" {
+			s.Secondary = true
+		}
+		// non-default option sets: one more request shape
+		if s.Opt != "" {
 			s.Secondary = true
 		}
 	}
@@ -95,8 +102,10 @@ func expandContexts() {
 	base := sites
 	sites = nil
 	for _, s := range base {
-		s.Kind = kindOf(s.ID)
-		s.Base = s.ID
+		if s.Base == "" {
+			s.Base = s.ID
+		}
+		s.Kind = kindOf(s.Base)
 		s.BaseQuote = s.Quote
 		var ctxs []Ctx
 		switch s.Kind {
